@@ -55,6 +55,8 @@ Definition parse_float (s : bytes) : pf :=
   else if existsb (fun b => byte_eqb b "+"%byte || byte_eqb b "-"%byte) body
           && forallb (fun b => is_digit_b b || byte_eqb b "."%byte || byte_eqb b "+"%byte || byte_eqb b "-"%byte) body
   then PFErr            (* a sign after the first position *)
+  else if existsb (fun b => let c := bz (lower b) in (103 <=? c) && (c <=? 122) && negb (c =? 112) && negb (c =? 120)) body
+  then PFErr            (* a letter that occurs in no float spelling (g-z except p, x; inf / nan were handled above) *)
   else PFUnmodelled.
 
 (** * strconv.ParseInt(s, 10, 64) *)
